@@ -132,7 +132,7 @@ CLAIMED = {
                  "loop contracts); the verdict loop returns true only if every entry equals entry 0 and false only with a subset that differs from entry 0. "
                  "(g) the sub-iteration loop of IterativeReconstruction::reconstruct presents every sub-iteration number from the start "
                  "to the last exactly once and in order to update_estimate (loop contract; early termination nondeterministic). "
-                 (h) the class invariant all of this rests on - 90-degree symmetry only with the 180-degree one and a number of views divisible by 4, "
+                 "(h) the class invariant all of this rests on - 90-degree symmetry only with the 180-degree one and a number of views divisible by 4, "
                  "180-degree symmetry only for an even number of views, TOF data only the z-shift - is established by the constructor "
                  "(two statement kernels + lemma; float conditions nondeterministic). "
                  "All symmetry switches symbolic. Not decided: that an entry is the sum of its contributions (read from the single '+='), "
